@@ -41,15 +41,19 @@ class Servo:
 
     def _angle_to_pulse(self, angle: float) -> float:
         span_angle = self._max_angle - self._min_angle
-        return self._min_pulse + ((angle - self._min_angle) / span_angle) * (
+        pulse = self._min_pulse + ((angle - self._min_angle) / span_angle) * (
             self._max_pulse - self._min_pulse
         )
+        # Floating point rounding may overshoot a bound by an ulp.
+        return min(max(pulse, self._min_pulse), self._max_pulse)
 
     def _pulse_to_angle(self, pulse: float) -> float:
         span_pulse = self._max_pulse - self._min_pulse
-        return self._min_angle + ((pulse - self._min_pulse) / span_pulse) * (
+        angle = self._min_angle + ((pulse - self._min_pulse) / span_pulse) * (
             self._max_angle - self._min_angle
         )
+        # Floating point rounding may overshoot a bound by an ulp.
+        return min(max(angle, self._min_angle), self._max_angle)
 
     def write(self, angle: float) -> None:
         """Command the servo to ``angle`` degrees."""
